@@ -337,3 +337,34 @@ Check C19_sig_prefix_needed :
   95 + 1 < length (wrap [] [[97]%N] [END_SIG ++ [120]%N]) /\
   strip_pgp_signature (cut_chars 95 [] [[97]%N] [END_SIG ++ [120]%N]) = Ok ([97; 10]%N, Some []).
 Print Assumptions C19_sig_prefix_needed.
+
+(* ---------------------------------------------------------------- more non-vacuity *)
+(* every message ends in "\n", so C19_ok_no_final_newline's hypothesis is always satisfiable *)
+Example C19_ex_body : exists body, wrap ex_hs ex_ps ex_ss = body ++ [LF] /\ length body = 169.
+Proof. exists (removelast (wrap ex_hs ex_ps ex_ss)). vm_compute. split; reflexivity. Qed.
+
+(* all 169 character cuts of the 170-character example, by kind of result
+   (0 = passed through, otherwise the error code; 9 would be a signed result):
+   34 inside the first line, 15 up to the blank line, 81 up to the signature marker, 39 after *)
+Definition res_code (r : res (str * option str)) : N :=
+  match r with Ok (_, None) => 0 | Ok (_, Some _) => 9 | Err e => e | _ => 99 end%N.
+Example C19_ex_char_cuts :
+  map (fun n => res_code (strip_pgp_signature (cut_chars n ex_hs ex_ps ex_ss))) (seq 0 169) =
+  repeat 0%N 34 ++ repeat E_MissingPayload 15 ++ repeat E_MissingPgpSignature 81 ++
+  repeat E_TruncatedPgpSignature 39.
+Proof. vm_compute. reflexivity. Qed.
+
+(* a message with CR LF line ends throughout is inside pgp_dom_cr (not pgp_dom) and comes back
+   with LF line ends *)
+Example C19_ex_crlf :
+  let hs := [[72; 58; 13]]%N in let ps := [[97; 13]; [98; 13]]%N in let ss := [[120; 13]]%N in
+  pgp_dom_cr hs ps ss /\
+  strip_pgp_signature (wrap hs ps ss) = Ok ([97; 10; 98; 10]%N, Some [120]%N).
+Proof.
+  cbv zeta. split; [|vm_compute; reflexivity].
+  split; [|split; [|split]].
+  - cbn [app]. repeat constructor; apply no_lf_b; reflexivity.
+  - repeat constructor; vm_compute; discriminate.
+  - repeat constructor; vm_compute; discriminate.
+  - repeat constructor; vm_compute; discriminate.
+Qed.
